@@ -189,6 +189,17 @@ theorem bld_addUint16 (b : cbBuilder) (v : BitVec 16) :
     bld (cbBuilder.AddUint16 b v) = oapp (bld b) (some (w16 v).bytes) := by
   rw [addUint16_eq, bld_add]; rfl
 
+theorem bld_addUint24 (b : cbBuilder) (v : BitVec 32) :
+    bld (cbBuilder.AddUint24 b v) = oapp (bld b) (some [UInt8.ofBitVec (BitVec.setWidth 8 (v >>> 16)),
+      UInt8.ofBitVec (BitVec.setWidth 8 (v >>> 8)), UInt8.ofBitVec (BitVec.setWidth 8 v)]) := by
+  rw [addUint24_eq, bld_add]; rfl
+
+theorem bld_addUint32 (b : cbBuilder) (v : BitVec 32) :
+    bld (cbBuilder.AddUint32 b v) = oapp (bld b) (some [UInt8.ofBitVec (BitVec.setWidth 8 (v >>> 24)),
+      UInt8.ofBitVec (BitVec.setWidth 8 (v >>> 16)), UInt8.ofBitVec (BitVec.setWidth 8 (v >>> 8)),
+      UInt8.ofBitVec (BitVec.setWidth 8 v)]) := by
+  rw [addUint32_eq, bld_add]; rfl
+
 theorem bld_addBytes (b : cbBuilder) (v : BV) : bld (cbBuilder.AddBytes b v) = oapp (bld b) (some (abs v)) := by
   rw [addBytes_eq, bld_add]
 
